@@ -591,6 +591,9 @@ cache_size_pre_hook(kdump_ctx_t *ctx, struct attr_data *attr,
 	if (val->number > UINT_MAX)
 		return set_error(ctx, KDUMP_ERR_INVALID,
 				 "Cache size too big (max %u)", UINT_MAX);
+	if (!val->number)
+		return set_error(ctx, KDUMP_ERR_INVALID,
+				 "Cache size must not be zero");
 	return KDUMP_OK;
 }
 
